@@ -72,13 +72,12 @@ func main() {
 	defer cleanupQueryDir()
 	switch os.Args[1] {
 	case "dump":
-		_, pkg, _, err := loadRepo(repoDir)
+		prog, pkg, tp, err := loadRepo(repoDir)
 		if err != nil {
 			fmt.Println(err)
 			os.Exit(2)
 		}
-		x := newExec(nil, pkg, nil, &SpecSet{})
-		x.prog = pkg.Prog
+		x := newExec(prog, pkg, tp, &SpecSet{})
 		for _, name := range os.Args[2:] {
 			fn := x.lookupFunc(name)
 			if fn == nil {
